@@ -204,6 +204,14 @@ def evaluate(case):
                 elif not e_rel <= 1e-11 and not tags["nyquist_in_band"]:
                     fail("regrid-absolute-time", "with_times(samples %d..%d) differs from the basis evaluated at those absolute times by %.3g"
                          % (lo, hi - 1, e_rel), script)
+            # 4b. a coarser grid that starts at the same time and has as many samples as the whole period: every second
+            # original sample is shared
+            tt2 = (2 * np.arange(int(unique) * n) + off) * DT
+            wv2 = np.asarray(obj.with_times(tt2).values, dtype=float)
+            sh2 = [(j, 2 * j) for j in range(len(tt2)) if 2 * j < n]
+            if len(wv2) != len(tt2) or any(abs(wv2[j] - vals[k]) > 1e-11 * scale for j, k in sh2):
+                fail("regrid-shared", "with_times onto a grid of twice the step (same start, %d samples) does not reproduce the stored values "
+                     "at the shared sample times" % len(tt2), script)
             # 5. unit amplitudes -> requested RMS over a full period; nothing outside the band (FFT bins)
             if cls == "FFT" and len(f) and not tags["nyquist_in_band"]:
                 n_all = unique * n
